@@ -187,6 +187,10 @@ pub fn run(ctx: &Ctx) {
         [0usize, 1, 3, 55, 56, 57, 62, 63, 64, 65, 119, 120, 121, 128, 1000].iter().map(|len| Msg { len: *len, class: 3, seed: *len as u64 ^ 0xc01d }).collect()
     }, check_msg);
 
+    ctx.cold("cold_start_concurrent", "eight threads of a fresh process hash their first message at the same moment (lengths on both sides of the padding boundary)", || {
+        vec![[3usize, 55, 56, 57, 62, 63, 64, 120].iter().map(|len| Msg { len: *len, class: 3, seed: *len as u64 ^ 0xc01e }).collect::<Vec<_>>()]
+    }, |steps: &Vec<Msg>| par(steps, check_msg));
+
     ctx.exhaustive(
         "lengths_0_4096",
         "all lengths 0..=4096 x 4 content classes",
